@@ -383,6 +383,12 @@ fn candidate_nameservers(
 
             if let Ok(LocalResolutionResult::Done { resolved }) = resolve_local(context, &ns_q) {
                 for ns_rr in resolved.rrs() {
+                    // if `name` is an alias, local resolution follows it and
+                    // returns the `NS` records of its target: those say who
+                    // serves the target, not who serves the names below `name`
+                    if ns_rr.name != name {
+                        continue;
+                    }
                     if let RecordTypeWithData::NS { nsdname } = &ns_rr.rtype_with_data {
                         hostnames.push(nsdname.clone());
                     }
